@@ -19,7 +19,9 @@ from ..evidence import Run, canon_hash
 
 PID = "C13"
 SHARDS = {"quick": 8, "thorough": 16}
-SHARD_TIMEOUT = {"quick": 170, "thorough": 1500}
+# generous: the per-case limit below is CPU time, so on a heavily loaded
+# machine a shard may need several times its idle wall time
+SHARD_TIMEOUT = {"quick": 900, "thorough": 3400}
 N_CASES = {"quick": 560, "thorough": 4000}
 N_DRAWS = {"quick": 8, "thorough": 25}
 N_COLD = {"quick": 10, "thorough": 64}
@@ -46,10 +48,13 @@ def new_run():
          "hypothesis 6.168 generate phase only, explicit seeds, no database",
          "acceptance is judged by the producing schema's own validate(lazy=True)",
          "a strategy that raises on a satisfiable schema is counted as not decided",
-         "a case whose hypothesis run exceeds 3 s (quick) / 8 s (thorough) is cut "
-         "off at the next example attempt; what was drawn until then is judged",
-         "string witnesses avoid backslash-zero: numpy str_ scalars drop trailing "
-         "NUL characters (numpy limitation, not judged)"])
+         "a case whose hypothesis run exceeds 3 s (quick) / 8 s (thorough) of CPU "
+         "time is cut off at the next example attempt; what was drawn until then "
+         "is judged",
+         "strings with trailing NUL characters are not judged: numpy '<U' arrays, "
+         "which hypothesis fills, treat trailing NULs as padding (generated string "
+         "witnesses avoid backslash-zero; one directed case visits the region and "
+         "is counted as undecided)"])
 
 
 # --------------------------------------------------------------------------
@@ -71,12 +76,14 @@ def guarded(strategy, seconds):
     import hypothesis.strategies as st
     if not seconds:
         return strategy
-    deadline = time.monotonic() + seconds
+    # CPU time of this process, not wall time: which cases are cut off must
+    # not depend on how busy the machine is
+    deadline = time.process_time() + seconds
     hit = []
 
     @st.composite
     def _guard(draw):
-        if hit or time.monotonic() > deadline:
+        if hit or time.process_time() > deadline:
             # hypothesis reports this as FlakyStrategyDefinition ("stopped
             # drawing earlier"); draw_strategy() translates it back
             hit.append(1)
@@ -347,7 +354,8 @@ def classify(case, fl, d):
     if kind == "series" and case.get("index") and fl["schema_type"] in ("Index", "MultiIndex"):
         if isinstance(d, pd.Series) and isinstance(d.index, pd.RangeIndex):
             return "series_strategy-ignores-index-component"
-        return None
+        # an index was attached: whatever is wrong with it is classified like
+        # any other index component below
     if where == "frame" and reason == "DUPLICATES" and _joint_unique_null_duplicates(case, d):
         return "null-mask-after-unique-emits-duplicate-nulls"
     if f is None:
@@ -411,12 +419,6 @@ def classify(case, fl, d):
             and all(isinstance(v, (int, float)) and abs(v) > 2 ** 53 for v in vals)):
         return "null-mask-upcasts-numpy-int-or-bool"
 
-    # frame-level checks switch hypothesis to rows=...; column element
-    # strategies (hence column-level checks) are then dropped
-    if (kind == "frame" and where == "column" and
-            any(c["k"] in ROW_STRATEGY_DF_CHECKS for c in case.get("df_checks") or [])):
-        return "dataframe_strategy-row-strategy-drops-column-checks"
-
     # vectorised custom checks without a strategy: no fallback filter for
     # Index / MultiIndex strategies
     if k in ("c_vec", "c_agg") and in_index:
@@ -443,15 +445,15 @@ def classify(case, fl, d):
             if all(matches(v, ev) for v in vals):
                 return "eq_strategy-replaces-preceding-chain"
 
-    # literal interpolated into a regular expression
+    # literal interpolated into a regular expression: every offending value
+    # matches the string read as a regular expression
     if k in ("str_startswith", "str_endswith") and _is_special(a["string"]):
         pat = rf"\A(?:{a['string']})" if k == "str_startswith" else rf"(?:{a['string']})\Z"
         try:
             if all(isinstance(v, str) and re.search(pat, v) for v in vals):
                 return f"{k}_strategy-literal-not-escaped"
         except re.error:
-            return None
-        return None
+            pass
 
     effective_base = all(c["k"] not in HAS_STRATEGY and c["k"] != "c_ew" for c in chain[:i])
     # exclusive bounds are only passed on to float strategies
@@ -460,6 +462,12 @@ def classify(case, fl, d):
                    ([a["max_value"]] if not a["include_max"] else [])
         if excluded and all(any(matches(v, e) for e in excluded) for v in vals):
             return "in_range_strategy-exclusive-bounds-ignored-for-non-float"
+
+    # frame-level checks switch hypothesis to rows=...; column element
+    # strategies (hence column-level checks) are then dropped
+    if (kind == "frame" and where == "column" and
+            any(c["k"] in ROW_STRATEGY_DF_CHECKS for c in case.get("df_checks") or [])):
+        return "dataframe_strategy-row-strategy-drops-column-checks"
 
     if shifted:
         # naive UTC values are tz_localize()d: every value is off by the offset
@@ -708,24 +716,35 @@ def one_case(run, case, hseed, n, verbose=False, limit=None, cold=False):
         if verdict == "ok":
             run.count(P + "draw_accepted")
             continue
-        bad_case = True
-        run.count(P + "draw_rejected")
-        report(run, "draw-rejected-by-own-schema", case, brief, d, verdict, info, verbose)
+        if report(run, "draw-rejected-by-own-schema", case, brief, d, verdict, info, verbose):
+            bad_case = True
+            run.count(P + "draw_rejected")
+        else:
+            run.count(P + "draw_not_judged")
     run.count(P + ("cases_all_draws_accepted" if not bad_case else "cases_with_rejected_draw"))
 
 
+NOT_JUDGED_NUL = "numpy-str-array-drops-trailing-NUL-characters"
+
+
 def report(run, kind, case, brief, d, verdict, info, verbose):
-    """one violation per mechanism seen in this rejected draw"""
+    """one violation per mechanism seen in this rejected draw; -> number of
+    violations recorded (0: the rejection lies in a region that is not judged)"""
     if verdict == "exc":
         mech = classify_exc(case, info, d)
         run.violation("validate-raised-on-own-draw" if kind.startswith("draw") else kind,
                       dict(brief, draw=show(d), exc=repr(info)[:400]), mech)
         if verbose:
             print("EXC", mech, repr(info)[:300])
-        return
+        return 1
     per = {}
     for fl in info:
         per.setdefault(classify(case, fl, d), []).append(fl)
+    if NOT_JUDGED_NUL in per:
+        # numpy '<U' arrays (the container hypothesis fills) treat trailing NUL
+        # characters as padding; a value that only fails because its trailing
+        # NULs are gone is an artefact of numpy, not judged
+        run.count("undecided:numpy_str_array_drops_trailing_NUL(not judged)", len(per.pop(NOT_JUDGED_NUL)))
     for mech, fls in per.items():
         run.violation(kind, dict(brief, draw=show(d), failures=fls), mech)
     if verbose:
@@ -734,6 +753,7 @@ def report(run, kind, case, brief, d, verdict, info, verbose):
             for fl in fls:
                 print("  ", mech, "|", fl["schema_type"], fl["schema_name"], fl["reason"],
                       fl["check"], fl["check_index"], fl["values"])
+    return len(per)
 
 
 # --------------------------------------------------------------------------
@@ -770,7 +790,7 @@ def cold_case(run, case, hseed, n, verbose=False):
     from .. import env
     try:
         p = subprocess.run(
-            [env.PY, "-m", "pvm.c13_cold"], cwd=env.VERIF, timeout=120,
+            [env.PY, "-m", "pvm.c13_cold"], cwd=env.VERIF, timeout=600,
             input=json.dumps({"case": case, "hseed": hseed, "n": n, "verbose": verbose}),
             capture_output=True, text=True, env=dict(os.environ))
     except subprocess.TimeoutExpired:
